@@ -48,7 +48,7 @@ def rule_label(ctx):
     ok = len(wf) == 1 and len(wf[0].args) >= 2
     if ok:
         t = expand(p, wf[0].args[1], wt)
-        ok = isinstance(t, ast.Call) and isinstance(t.func, ast.Name) and t.func.id == "getattr" and len(t.args) == 2 and src(t.args[0]) == wt.args.args[0].arg and src(t.args[1]) == wt_outer.args.args[0].arg
+        ok = isinstance(t, ast.Call) and isinstance(t.func, ast.Name) and t.func.id == "getattr" and len(t.args) == 2 and src(t.args[0]) == wt.args.args[0].arg and src(t.args[1]) == (wt_outer.args.args + wt_outer.args.kwonlyargs)[0].arg
         inner = expand(p, wf[0].args[0], wt)
         ok = ok and isinstance(inner, ast.Call) and isinstance(inner.func, ast.Name) and inner.func.id == wrapped
         ok = ok and isinstance(p.parent.get(wf[0]), (ast.Await, ast.Return)) and not any(isinstance(q, (ast.For, ast.While, ast.Try)) for q in _anc(p, wf[0], wt))
@@ -80,12 +80,14 @@ def rule_wire(ctx):
         ctx.floor_errors.append(f"rule=C16.WIRE: {n_ctl} control stream constructions (expected 1)")
     ctor = p.session_ctor()
     init_attrs = {t.attr for n in walk_no_nested(p.method("Server", "__init__")) if isinstance(n, ast.Assign) for t in n.targets if isinstance(t, ast.Attribute)}
-    for k in ctor.keywords:
-        if k.arg in ("socket_timeout", "idle_timeout", "wait_future_timeout", "path_timeout", "block_size"):
-            ctx.ob("C16.WIRE", k.value, f"session field {k.arg} <- {src(k.value)}", src(k.value) == f"self.{k.arg}",
-                   f"session field {k.arg} initialised from {src(k.value)}", construct=f"wire:session:{k.arg}<-{src(k.value)}")
+    skw = session_kwargs(p)   # a `**self.<template>` splat is resolved through the dict assigned in __init__ (where `self.x` was just set from the argument `x`)
+    for karg, kval in skw.items():
+        if karg in ("socket_timeout", "idle_timeout", "wait_future_timeout", "path_timeout", "block_size") and kval is not None:
+            in_init = p.enclosing_function(kval) is p.method("Server", "__init__")
+            ctx.ob("C16.WIRE", kval, f"session field {karg} <- {src(kval)}", src(kval) == f"self.{karg}" or (in_init and src(kval) == karg),
+                   f"session field {karg} initialised from {src(kval)}", construct=f"wire:session:{karg}<-{src(kval)}")
     for need in ("socket_timeout", "wait_future_timeout"):
-        if need not in {k.arg for k in ctor.keywords}:
+        if need not in skw and "**" not in skw:
             ctx.fail("C16.WIRE", ctor, f"session field {need} is not initialised", construct=f"wire:session:{need}:missing")
     init = p.method("Server", "__init__")
     for attr in ("socket_timeout", "idle_timeout", "wait_future_timeout", "path_timeout"):
@@ -149,11 +151,12 @@ def rule_wait(ctx):
     ctx.rule("C16.WAIT", "the guard's timeout is wait_future_timeout iff wait=True (None stays None), else 0; one wait_for, not in a loop; the data-connection wait fails with 425")
     w = p.wrapper_of("ConnectionConditions")
     conn = [a.arg for a in w.args.args][1]
-    wf = [c for c in walk_no_nested(w) if isinstance(c, ast.Call) and (dotted(c.func) or "").endswith("wait_for")]
+    wf = [c for c in walk_no_nested(w) if isinstance(c, ast.Call) and ((dotted(c.func) or "").endswith("wait_for") or
+                                                                      ((dotted(c.func) or "") in ("asyncio.wait", "wait") and kwarg(c, "timeout") is not None))]
     if len(wf) != 1:
-        ctx.fail("C16.WAIT", w, f"the guard has {len(wf)} wait_for calls (expected 1)", construct=f"wait:{len(wf)} wait_for")
+        ctx.fail("C16.WAIT", w, f"the guard has {len(wf)} bounded waits (expected 1)", construct=f"wait:{len(wf)} wait_for")
         return
-    targ = wf[0].args[1] if len(wf[0].args) > 1 else kwarg(wf[0], "timeout")
+    targ = kwarg(wf[0], "timeout") if kwarg(wf[0], "timeout") is not None else (wf[0].args[1] if len(wf[0].args) > 1 else None)
     # possible values of the timeout expression, with the condition under which each is chosen
     choices = []   # (value src, wait truth)
 
